@@ -64,7 +64,7 @@ NOTE = {
  "codec": "Trusted: the transcription is checked against the code by the vectors themselves. Limit of the technique (DESIGN 5, C12): the grammar is exhaustive at token level, data values are classes.",
  "proc": "Trusted: TLC, the runner's normalisation of frames (dense ranks, content tokens), the script catalogue being deterministic. "
          "Bounded: MC_proc_*.cfg constants; histories sampled; absence of a frame is judged after a 20-30 s wait on something owed; "
-         "ephemeral / head:N TTLs and nu modules are not in the script catalogue.",
+         "head:N TTLs are not in the script catalogue; ephemeral outputs and nu modules only through the regression scenarios (kinds h_eph_app, h_eph_fail, c_mod, h_mod).",
  "http": "Trusted: the harness' raw HTTP client and response parser. Bounded: one request per connection; follow routes over HTTP are exercised separately.",
  "dur": "Trusted: TLC, the ptrace supervisor, the strace-based reconstruction (self-checked against the real directory on every run), the ordered-metadata file-system model of tools/durimg.py, the abstraction of observations. Bounded: MC_dur_*.cfg constants; crash points at system-call granularity plus torn journal writes; memtable flush / journal rotation sampled by bulk runs, not modelled. CAS content durability against power loss is not claimed.",
  "conc": "Trusted: TLC, the gate hooks (events are logged under one mutex after the state change), rank abstraction of ids. Bounded: MC_conc_*.cfg constants; schedules sampled.",
